@@ -158,6 +158,11 @@ func analyseHandler(c *Ctx, h *ssa.Function) (out struct {
 					return true
 				}
 			}
+			// the verdict a panicking constructor acts on: `if err := params.validate(); err != nil { panic(err) }` —
+			// the receiver is a pointer to the constructor's own (request-derived) parameter struct
+			if cal.Object() != nil && !cal.Object().Exported() && verdictLike(cal) && len(cal.Blocks) <= 40 && call != nil && c.hasPanic(call.Parent(), 0, memo) {
+				return true
+			}
 			return false
 		}
 		entry := &aiState{vals: map[ssa.Value]*AV{}, mem: map[string]*AV{}}
